@@ -13,7 +13,8 @@ import itertools
 
 from vlib import core, corr
 
-DEPENDS = ["TlsDispatch (generated)", "TlsSM", "TlsSMProofs", "C11"]
+DEPENDS = ["TlsDispatch (generated)", "TlsSM", "TlsSMProofs", "TlsQuicGen (generated)", "TlsQuic", "StreamRecv (C10 model, read-only)", "C11"]
+GENERATORS = ["c11_dispatch", "c11_quic"]
 TRUSTED_BASE = [
     "tools/gen/c11_dispatch.py (Python-ast translator of the dispatch chain, enum values and handler skeletons; fail closed)",
     "extraction (ExtrOcamlBasic only) + coq/extract/driver.ml for running exec_tlssm",
@@ -21,11 +22,20 @@ TRUSTED_BASE = [
     "declares for each message it builds (mac_ok, sig_ok, cert verdict, parse_ok, psk_selected ...)",
     "modelled, not verified: tls.Context handlers as Gallina functions over oracle booleans; cryptography, message parsing, "
     "X.509 validation, key derivation and transcript hashing are outside the model",
+    "tools/gen/c11_quic.py (ast translator: constants, get_epoch, CRYPTO frame epochs, statement skeletons of _handle_crypto_frame, "
+    "_update_traffic_key, _discard_epoch, handle_message; fail closed) + the pin proofs/TlsQuicSkel.v",
+    "harness/props/c11_quic.py + harness/sim (virtual network, wire observer with the endpoints' key logs, peer puppet): the QUIC-level "
+    "adversary, its own reassembly bookkeeping that orders the oracle records, and the observation of the victim (qlog packet_received / "
+    "packet_dropped, close event, Context.state, CryptoPair.is_valid, len(_receive_buffer))",
+    "modelled, not verified: QuicConnection.receive_datagram / _payload_received / _handle_crypto_frame / _update_traffic_key / the key-discarding "
+    "part of datagrams_to_send as coq/model/TlsQuic.v; packet protection and everything the victim sends are outside that model",
 ]
 ASSUMPTIONS = [
     "message type is one byte (0 <= t < 256), as read from the receive buffer",
     "one complete handshake message per handle_message call (reassembly is exercised by the harness, not modelled)",
     "oracle booleans stand for MAC / signature / certificate / parse checks (correctness of those primitives is outside C11)",
+    "connection level: the peer holds all keys (a packet is either decryptable by the victim or dropped); CRYPTO stream bytes are bytes "
+    "(0..255) -- premise bytes_ok of fragmentation_independent; that theorem is about the frames of one packet",
 ]
 
 SIG_ALG = 0x0403  # ECDSA_SECP256R1_SHA256
@@ -817,7 +827,7 @@ class OracleOnly(corr.Suite):
             if len(c["ops"]) >= 3:
                 st["distinct_nontrivial"] += 1
             if len(st["samples"]) < 3:
-                st["samples"].append({"suite": self.name, "case": corr._short(c), "output_tokens": impl(c)[:40]})
+                st["samples"].append({"suite": self.name, "case": corr._short(c), "output_tokens": self.impl(c)[:40]})
             bad = corr._safe(self.oracle, c)
             if bad:
                 st["oracle_failures"] += 1
@@ -829,8 +839,13 @@ class OracleOnly(corr.Suite):
         return st
 
 
+def is_stale(ctx):
+    names = [str(g.get("gen", "")) if isinstance(g, dict) else str(g) for g in ((ctx.build or {}).get("gen_errors") or [])]
+    return any("c11_dispatch" in n or "c11_quic" in n for n in names)
+
+
 def suites(ctx):
-    stale = any("c11_dispatch" in g for g in ((ctx.build or {}).get("gen_errors") or []))
+    stale = is_stale(ctx)
     if stale:
         ctx.notes.append("translator failed: model is stale, correspondence skipped, oracle only")
         mk = lambda name: OracleOnly(ctx, name, "exec_tlssm", encode, impl, oracle, _ops, _rebuild, opname=_opname)  # noqa: E731
@@ -857,22 +872,30 @@ def run(ctx):
     run_chunks(cv, fc, "flights")
     run_chunks(sv, fs, "flights")
     completed, outcomes = STATS["completed"], dict(STATS["outcomes"])
+    _TRACE_CACHE.clear()
+    # QUIC level: the same adversary behind the peer puppet, real QuicConnection victims (props/c11_quic.py)
+    from props import c11_quic
+    qsuites, qextra = c11_quic.q_run(ctx, is_stale(ctx))
     return corr.merge_coverage(
-        [cv, sv],
+        [cv, sv] + qsuites,
         "key-holding adversary against real tls.Context victims: every (state, type byte) pair on a Context driven into that "
         "state; all words over {EE,CR,Cert,CV,Fin} up to length 6 with at most one repetition plus all words up to length 4 "
         "(thorough: all words up to length 6) x {no PSK, PSK selected, PSK offered but not selected}; check-failure "
         "valuations (bad MAC / signature / untrusted / expired certificate / truncated) of the near-legal flights; server "
         "victim: all words over {Cert, Cert(empty), CV, CV(bad), Fin, Fin(bad), EE, CR} up to length 4 x PSK x "
         "client-certificate request; random longer words with fragmentation. distinct = distinct model token encoding",
-        {"correspondence_skipped_translator_failed": isinstance(cv, OracleOnly), "state_type_pairs_probed": len(pairs), "client_flight_cases": len(fc), "server_flight_cases": len(fs),
-         "runs_reaching_post_handshake": completed, "outcome_histogram_all_ops": outcomes})
+        dict({"correspondence_skipped_translator_failed": isinstance(cv, OracleOnly), "state_type_pairs_probed": len(pairs),
+              "client_flight_cases": len(fc), "server_flight_cases": len(fs),
+              "runs_reaching_post_handshake": completed, "outcome_histogram_all_ops": outcomes}, **qextra))
 
 
 def replay(ctx, rep):
+    case = rep["case"]
+    if case.get("ops") and isinstance(case["ops"][0], dict):
+        from props import c11_quic
+        return c11_quic.q_replay(ctx, case)
     env()
     cv, sv = suites(ctx)
-    case = rep["case"]
     s = cv if case.get("role") == "client" else sv
     d, e, g = s.disagree(case)
     return {"suite": s.name, "disagree": d, "impl": e, "model": g, "oracle": oracle(case),
